@@ -120,6 +120,8 @@ impl QueuingExecutor {
                         // This strategy should avoid dropping work or busy-looping
                         // FIXME: are we potentially sending ourselves `Unavailable` and reading it
                         // in a loop - busy looping here?
+                        #[cfg(crux_verif)]
+                        crate::verif::schedule_point("exec:requeue");
                         self.ready_sender.send(task_id).expect("could not requeue");
                     }
                     RunTask::Missing => {
